@@ -196,6 +196,7 @@ pub fn run_realheap(seed: u64, budget_events: u64, out: &mut RunOut) {
         let mut c: LruCache<String, Vec<u8>> = if rng.chance(1, 2) { LruCache::new(max) } else { LruCache::with_capacity(max, rng.usize_below(30)) };
         let key = |i: usize| -> String { let mut s = String::with_capacity(i % 7 + 2); s.push_str(&format!("k{}", i)); s };
         let mut log: Vec<String> = Vec::new();
+        let mut stale = false; // the cache is a clone whose records were copied from differently sized originals (D7)
         for _ in 0..rng.range(20, 200) {
             let id = rng.usize_below(universe);
             let what = match rng.below(12) {
@@ -211,13 +212,27 @@ pub fn run_realheap(seed: u64, budget_events: u64, out: &mut RunOut) {
             log.push(what);
             out.stats.events += 1;
             let sum: u128 = c.iter().map(|(k, v)| entry_size(k, v) as u128).sum();
+            let rec_sum: u128 = c.verif_walk(c.len() + 4).forward.iter().map(|n| n.size as u128).sum();
             out.stats.eval("C02", mix(&[4000, c.len().min(12) as u64, (sum % 5) as u64, log.last().unwrap().len() as u64 % 7]));
             out.stats.eval("C01", mix(&[4001, c.len().min(12) as u64, (c.current_size() == c.max_size()) as u64]));
             out.stats.count("c02_realheap_events");
-            if c.current_size() as u128 != sum || c.len() != c.iter().count() || (c.current_size() == 0) != c.is_empty() {
+            // current_size() must always equal the sum of the sizes recorded for the entries (hook) ...
+            if c.current_size() as u128 != rec_sum || c.len() != c.iter().count() || (c.current_size() == 0) != c.is_empty() {
+                fail(out, "C02", "realheap-recorded-sum", format!("String/Vec<u8> cache after `{}`: current_size() = {}, sizes recorded for the {} entries sum to {}, is_empty() = {}", log.last().unwrap(), c.current_size(), c.len(), rec_sum, c.is_empty()), &cfg, log.join("; "));
+                break;
+            }
+            // ... and the sum of entry_size over the entries; after a clone whose copies lost spare capacity this is the known
+            // finding D7 (the clone carries the source's records): report it once and go on with the recorded-sum identity only
+            if !stale && c.current_size() as u128 != sum {
                 let sig = if log.last().unwrap().starts_with("clone") { "realheap-sum-after-clone" } else { "realheap-sum" };
                 fail(out, "C02", sig, format!("String/Vec<u8> cache after `{}`: current_size() = {}, sum of entry_size over {} entries = {}", log.last().unwrap(), c.current_size(), c.len(), sum), &cfg, log.join("; "));
-                break;
+                if sig == "realheap-sum" { break; }
+                stale = true;
+                out.stats.count("c02_realheap_histories_continued_after_clone");
+            }
+            if stale {
+                if c.current_size() > c.max_size() { fail(out, "C01", "realheap-bound", format!("String/Vec<u8> cache (a clone) after `{}`: current_size() = {} > max_size() = {}", log.last().unwrap(), c.current_size(), c.max_size()), &cfg, log.join("; ")); break; }
+                continue;
             }
             if c.current_size() > c.max_size() || sum > c.max_size() as u128 { fail(out, "C01", "realheap-bound", format!("String/Vec<u8> cache after `{}`: current_size() = {} (sum {}) > max_size() = {}", log.last().unwrap(), c.current_size(), sum, c.max_size()), &cfg, log.join("; ")); break; }
         }
@@ -265,11 +280,45 @@ pub fn run_bigcap(seed: u64, max_n: usize, out: &mut RunOut) {
                 if c.capacity() > before || c.capacity() < m.min(before) { fail(out, "C13", "shrink-bounds", format!("{} then shrink_to({}): capacity {} -> {} with {} entries", what, m, before, c.capacity(), len), &cfg, what.clone()); }
                 c.shrink_to_fit();
                 if c.capacity() < len || c.len() != len { fail(out, "C13", "shrink-bounds", format!("{} then shrink_to_fit: capacity {} with {} entries", what, c.capacity(), len), &cfg, what.clone()); }
+                // a clone keeps at least the source's capacity, also at this scale
+                { let before = c.capacity(); let d = c.clone(); out.stats.eval_only("C14");
+                  if d.capacity() < before || d.len() != len { fail(out, "C14", "clone-capacity", format!("{}: clone has capacity {} and {} entries, its source {} and {}", what, d.capacity(), d.len(), before, len), &cfg, what.clone()); } }
                 if len > 0 && (c.peek_lru().map(|(k, _)| *k) != Some(0) || c.peek_mru().map(|(k, _)| *k) != Some(len as u32 - 1)) { fail(out, "C13", "not-transparent", format!("{}: order changed by capacity operations", what), &cfg, what.clone()); }
                 if out.stats.samples.get("C13").map(|v| v.len()).unwrap_or(0) < 4 && n >= 1000 { out.stats.sample("C13", format!("{}: capacity {} unchanged through {} fresh insertions; after reserve/shrink: {}", what, cap0, n, c.capacity())); }
             }}; }
             if ctor == 0 { body!(LruCache::<u32, u32>::with_capacity(usize::MAX, n)); } else { body!(LruCache::<u32, u32, TH>::with_capacity_and_hasher(usize::MAX, n, TH(3, next_hasher_seed()))); }
         }
+    }
+}
+
+/// Tables that span hundreds of megabytes of (mostly untouched) address space: a clone must still keep the capacity.
+pub fn run_hugecap(out: &mut RunOut) {
+    let cfg = HistCfg { hk: 4, cap0: None, max: usize::MAX, universe: 0, events: 0, extreme: false };
+    let avail_kb: u64 = std::fs::read_to_string("/proc/meminfo").ok().and_then(|m| m.lines().find(|l| l.starts_with("MemAvailable:")).and_then(|l| l.split_whitespace().nth(1).and_then(|x| x.parse().ok()))).unwrap_or(0);
+    if avail_kb < 12 * 1024 * 1024 { out.stats.count("c14_hugecap_skipped_low_memory"); return; }
+    // (a) entries that are large inline: 64 KiB values, capacity for 14000 of them (about 1 GiB of address space)
+    {
+        let mut c: LruCache<u32, [u8; 65536]> = LruCache::new(usize::MAX);
+        if c.try_reserve(14000).is_ok() {
+            for i in 0..3u32 { let _ = c.insert(i, [i as u8; 65536]); }
+            let d = c.clone();
+            out.stats.eval("C14", mix(&[9100, 1])); out.stats.eval("C13", mix(&[9100, 1])); out.stats.count("c14_hugecap_clones"); out.stats.events += 1;
+            if d.capacity() < c.capacity() || d.len() != 3 { fail(out, "C14", "clone-capacity", format!("LruCache<u32, [u8; 65536]> with capacity {}: clone has capacity {}", c.capacity(), d.capacity()), &cfg, "hugecap large-inline".into()); }
+            if c.capacity() < 14003 - 3 { fail(out, "C13", "reserve-bound", format!("try_reserve(14000) left capacity {}", c.capacity()), &cfg, "hugecap".into()); }
+        } else { out.stats.count("c14_hugecap_skipped_alloc_refused"); }
+    }
+    // (b) small entries, twelve million spare buckets (several hundred MiB of address space)
+    {
+        let mut c: LruCache<u32, u32> = LruCache::new(usize::MAX);
+        if c.try_reserve(12_000_000).is_ok() {
+            for i in 0..1000u32 { let _ = c.insert(i, i); }
+            let d = c.clone();
+            out.stats.eval("C14", mix(&[9100, 2])); out.stats.eval("C13", mix(&[9100, 2])); out.stats.count("c14_hugecap_clones"); out.stats.events += 1;
+            if d.capacity() < c.capacity() || d.len() != 1000 { fail(out, "C14", "clone-capacity", format!("LruCache<u32, u32> with capacity {}: clone has capacity {}", c.capacity(), d.capacity()), &cfg, "hugecap small-entries".into()); }
+            let before = c.capacity();
+            c.shrink_to(6_000_000);
+            if c.capacity() > before || c.capacity() < 6_000_000 { fail(out, "C13", "shrink-bounds", format!("shrink_to(6000000) took capacity from {} to {}", before, c.capacity()), &cfg, "hugecap".into()); }
+        } else { out.stats.count("c14_hugecap_skipped_alloc_refused"); }
     }
 }
 
